@@ -1020,7 +1020,7 @@ size_t derTPSTRDec(char* val, size_t* len, const octet der[], size_t count,
 		if ((ch < '0' || ch > '9') &&
 			(ch < 'A' || ch > 'Z') &&
 			(ch < 'a' || ch > 'z') &&
-			strchr(" '()+,-./:=?", ch) == 0)
+			(ch == 0 || strchr(" '()+,-./:=?", ch) == 0))
 		{
 			ch = 0;
 			return SIZE_MAX;
